@@ -55,6 +55,23 @@ def panel_reads(func):
     return sig, reads
 
 
+def raw_pointer_params(func, sig):
+    """memoryview parameters declared strided (``double [:] x``) whose address is taken (``&x[0]`` -> PTR(x, 0)): the callee walks raw
+    memory, so the wrapper is only correct for C-contiguous arguments (Cython does not check that for ``[:]``)"""
+    used = set()
+    for n in ast.walk(func.node):
+        if isinstance(n, ast.Call) and isinstance(n.func, ast.Name) and n.func.id == 'PTR' and n.args and isinstance(n.args[0], ast.Name):
+            used.add(n.args[0].id)
+    return [nme for t, nme in sig if nme in used and str(t).replace(' ', '').endswith('[:]')]
+
+
+def require_contiguous(raw_params, nme, v, modname, fname):
+    if nme in raw_params and getattr(v, 'contiguous', True) is False:
+        raise SymRaise('KernelPrecondition', ('%s.%s reads the memory of its argument %s through a raw pointer (&%s[0]): the array must be '
+                                              'C-contiguous, the caller passes an array of arbitrary layout (e.g. a column of a matrix)'
+                                              % (modname, fname, nme, nme),))
+
+
 def _is_number(v):
     v = pysym._unwrap0(v)
     return isinstance(v, (P, int)) and not isinstance(v, bool) or isinstance(v, bool)
@@ -69,6 +86,7 @@ def kernel_contract(interp, func, calls):
     clsreq = class_requirement(func)
     objparams_ = [n for t, n in sig if t == 'object']
     rets = [n.value for n in ast.walk(func.node) if isinstance(n, ast.Return) and n.value is not None]
+    raw_params = raw_pointer_params(func, sig)
     returns_memoryview = bool(rets) and all(isinstance(r, ast.Name) and str(func.ctypes.get(r.id, '')).replace(' ', '').endswith('[:]') for r in rets)
 
     def contract(itp, args, kwargs):
@@ -109,6 +127,7 @@ def kernel_contract(interp, func, calls):
                 snap[nme] = v
             else:
                 scal[nme] = v            # memoryviews (c, Fnxny, xs, ys ...)
+                require_contiguous(raw_params, nme, v, modname, fname)
         values = {}
         for (objname, chain), ctype in sorted(reads.items()):
             o = bound[objname]
@@ -153,6 +172,7 @@ def field_contract(interp, func, calls):
     fname = func.node.name
     modname = func.module.name.split('.')[-1]
     defaults = func.defaults or []
+    raw_params = raw_pointer_params(func, sig)
 
     def contract(itp, args, kwargs):
         names = [n for t, n in sig]
@@ -170,6 +190,8 @@ def field_contract(interp, func, calls):
                 else:
                     raise SymRaise('TypeError', ("%s() missing required argument '%s'" % (fname, nme),))
         c, p, xs, ys = bound['c'], bound['p'], bound['xs'], bound['ys']
+        for nme in names:
+            require_contiguous(raw_params, nme, bound[nme], modname, fname)
         if not isinstance(p, Obj):
             raise SymRaise('AttributeError', ('%s(): p is not a panel object' % fname,))
         values = {}
@@ -320,10 +342,22 @@ class LamMatrix(object):
     def sym_getattr(self, interp, name):
         if name == 'shape':
             return self.shape
+        if name == 'copy':
+            def cp(*a, **k):
+                m = LamMatrix(self.spec, self.n)          # same values, another object: later writes to one do not reach the other
+                m.writes = list(self.writes)
+                return m
+            return cp
         raise CheckerError('laminate matrix attribute %s' % name)
 
+    def effective_writes(self):
+        eff = {}
+        for k, v in self.writes:
+            eff[repr(k)] = repr(v)                        # the last write to an index wins
+        return tuple(sorted(eff.items()))
+
     def key(self):
-        return ('LamMatrix', self.spec.key(), self.n, tuple((repr(k), repr(v)) for k, v in self.writes))
+        return ('LamMatrix', self.spec.key(), self.n, self.effective_writes())
 
 
 class LamBlock(object):
